@@ -374,7 +374,12 @@ class XTB(autode.wrappers.methods.ExternalMethodOEG):
 
         elif os.path.exists(f"{calc.name}_OLD.grad"):
             with open(f"{calc.name}_OLD.grad", "r") as grad_file:
-                for i, line in enumerate(grad_file):
+                grad_lines = grad_file.readlines()
+
+                if not any(ln.startswith("$end") for ln in grad_lines):
+                    raise CouldNotGetProperty(name="gradient")
+
+                for i, line in enumerate(grad_lines):
                     if i > 1 and len(line.split()) == 3:
                         x, y, z = line.split()
                         vec = [
